@@ -395,6 +395,12 @@ def load_crate(path):
         s["ty"] = S[s["ty"]]
         s["span"][0] = S[s["span"][0]]
         c.statics.append(s)
+    c.consts = {}
+    for k in d.get("consts", []):
+        k["path"] = S[k["path"]]
+        k["ty"] = S[k["ty"]]
+        k["span"][0] = S[k["span"][0]]
+        c.consts[k["path"]] = k
     for u in d["unsafe_blocks"]:
         u["fn"] = S[u["fn"]]
         u["span"][0] = S[u["span"][0]]
